@@ -232,6 +232,13 @@ func sysChild() {
 	out := bufio.NewWriter(os.Stdout)
 	for sc.Scan() {
 		line := sc.Text()
+		if strings.HasPrefix(line, "sysbig ") {
+			bts, _ := json.Marshal(runBig(root, line))
+			out.Write(bts)
+			out.WriteByte('\n')
+			out.Flush()
+			continue
+		}
 		if strings.HasPrefix(line, "cluster ") {
 			bts, _ := json.Marshal(runCluster(root, line))
 			out.Write(bts)
@@ -315,6 +322,93 @@ func sysChild() {
 	closeAll()
 }
 
+// sysbig n=<docs> k=<fractions of layout B> : a corpus large enough for a token's posting list to span several LID
+// blocks of a sealed fraction (consts.LIDBlockCap entries per block).  Document i has MID i+1, service a (every 7th: b).
+// One sealed fraction vs k sealed fractions (contiguous split); windows at the old end, the middle and everything,
+// both orders, limit 5 with total and a coarse histogram.
+func appendMany(fm *fracmanager.FracManager, lo, hi int) error {
+	for a := lo; a < hi; a += 4000 {
+		dp := frac.NewDocProvider()
+		for i := a; i < min(a+4000, hi); i++ {
+			svc := "a"
+			if i%7 == 3 {
+				svc = "b"
+			}
+			dp.Append([]byte(`{"service":"`+svc+`"}`), nil, seq.ID{MID: seq.MID(i + 1), RID: seq.RID(i % 3)}, seq.Tokens("_all_:", "service:"+svc))
+		}
+		dm, mm := dp.Provide()
+		if err := fm.Append(context.Background(), dm, mm); err != nil {
+			return err
+		}
+	}
+	fm.WaitIdle()
+	return nil
+}
+
+func runBig(root, line string) (resp sysResp) {
+	defer func() {
+		if r := recover(); r != nil {
+			resp.Err = "panic: " + fmt.Sprint(r)
+		}
+	}()
+	m := kv(strings.Fields(line)[1:])
+	n, k := atoi(m["n"]), atoi(m["k"])
+	dir, err := os.MkdirTemp(root, "big")
+	if err != nil {
+		resp.Err = err.Error()
+		return
+	}
+	defer os.RemoveAll(dir)
+	var stores [2]fracmanager.List
+	var fms []*fracmanager.FracManager
+	defer func() {
+		for _, fm := range fms {
+			fm.WaitIdle()
+			fm.Stop()
+		}
+	}()
+	for li, parts := range []int{1, k} {
+		for j := 0; j < parts; j++ {
+			fm, err := newFM(filepath.Join(dir, fmt.Sprintf("l%d-f%d", li, j)))
+			if err != nil {
+				resp.Err = "fm: " + err.Error()
+				return
+			}
+			fms = append(fms, fm)
+			if err := appendMany(fm, j*n/parts, (j+1)*n/parts); err != nil {
+				resp.Err = "append: " + err.Error()
+				return
+			}
+			fm.SealForcedForTests()
+			stores[li] = append(stores[li], fm.GetAllFracs()...)
+		}
+	}
+	var a, bb []string
+	for _, win := range [][2]int{{0, n / 20}, {n / 3, n / 2}, {0, 2 * n}, {n / 20, n / 20 + 3}} {
+		for _, desc := range []bool{true, false} {
+			for _, q := range []string{"a", "b", "*"} {
+				r := sysReq{q: q, desc: desc, wt: true, hi: uint64(n / 10), limit: 5, from: uint64(win[0]), to: uint64(win[1])}
+				p, err := r.params()
+				if err != nil {
+					resp.Err = err.Error()
+					return
+				}
+				ra, err1 := search1(stores[0], p, 0)
+				rb, err2 := search1(stores[1], p, 1)
+				if err1 != nil || err2 != nil {
+					resp.Err = fmt.Sprint("search: ", err1, err2)
+					return
+				}
+				tag := fmt.Sprintf("[%d,%d] desc=%v q=%s: ", win[0], win[1], desc, q)
+				a, bb = append(a, tag+ra), append(bb, tag+rb)
+			}
+		}
+	}
+	resp.A = strings.Join(a, " ; ")
+	resp.B = []string{strings.Join(bb, " ; ")}
+	return
+}
+
 // ---------------------------------------------------------------- parent side
 
 func genSys(g gen, o vh.Opts) []string {
@@ -396,6 +490,29 @@ func runSys(lines []string, ch *vh.Channel, orc *vh.Oracle, rep *vh.Report, o vh
 		}
 		line := lines[i]
 		i++
+		if strings.HasPrefix(line, "sysbig ") {
+			var br sysResp
+			if err := json.Unmarshal(sc.Bytes(), &br); err != nil {
+				orc.Error = "child output: " + err.Error()
+				break
+			}
+			orc.Case(line, true, "large-corpus")
+			if br.Err != "" {
+				orc.Error = "sysbig child: " + br.Err
+			} else if len(br.B) != 1 || br.B[0] != br.A {
+				as, bs := strings.Split(br.A, " ; "), strings.Split(strings.Join(br.B, ""), " ; ")
+				what := "answers differ"
+				for i := range as {
+					if i < len(bs) && as[i] != bs[i] {
+						what = fmt.Sprintf("one sealed fraction: %s ; %s sealed fractions: %s", as[i], kv(strings.Fields(line)[1:])["k"], bs[i])
+						break
+					}
+				}
+				rep.Violate(vh.Violation{Site: "fracmanager/searcher.go:SearchDocs", Class: "large-sealed-fraction-differs-from-split",
+					What: what, Replay: []string{line}})
+			}
+			continue
+		}
 		if strings.HasPrefix(line, "cluster ") {
 			var cr clusterResp
 			if err := json.Unmarshal(sc.Bytes(), &cr); err != nil {
